@@ -211,6 +211,38 @@ class Effects:
 
         fidx = A.index(fn)
 
+        def exits(st):
+            if st is None:
+                return False
+            k_ = st.get("k")
+            if k_ in ("ReturnStmt", "ContinueStmt", "BreakStmt", "CXXThrowExpr"):
+                return True
+            if k_ == "ExprWithCleanups" and st.get("c"):
+                return exits(st["c"][0])
+            if k_ == "CompoundStmt":
+                return bool(st.get("c")) and exits(st["c"][-1])
+            if k_ == "IfStmt":
+                return bool(st.get("else")) and exits(st.get("then")) and exits(st.get("else"))
+            return False
+        # `if (c) { ...; return; }` (no else): everything after it in the same block runs under !c
+        after_exit = {}
+        for root_ in roots:
+            for blk in A.walk(root_):
+                if blk.get("k") != "CompoundStmt":
+                    continue
+                pending = []
+                for st_ in blk.get("c", []):
+                    if pending:
+                        for y in A.walk(st_):
+                            after_exit.setdefault(y["id"], []).extend(pending)
+                    if st_.get("k") == "IfStmt":
+                        if not st_.get("else") and exits(st_.get("then")):
+                            pending = pending + [(st_["cond"], False)]
+                        elif st_.get("else") and exits(st_.get("then")) and not exits(st_.get("else")):
+                            pending = pending + [(st_["cond"], False)]
+                        elif st_.get("else") and exits(st_.get("else")) and not exits(st_.get("then")):
+                            pending = pending + [(st_["cond"], True)]
+
         def guards_of(node):
             out = []
             for e_ in A.enclosing(fidx, node, {"IfStmt"}):
@@ -220,6 +252,7 @@ class Effects:
                     out.append((e_["cond"], True))
                 elif el is not None and node["id"] in {y["id"] for y in A.walk(el)}:
                     out.append((e_["cond"], False))
+            out.extend(after_exit.get(node["id"], []))
             return out
         self._guards_of = guards_of
 
